@@ -53,6 +53,20 @@ def natStr (n : Nat) : Str := (toString n).toList
 
 def showNames (ns : List NameKey) : Str := commaJoin (ns.map (fun k => k.1 ++ '/' :: k.2))
 
+def showObs : Markup.Obs → List Str
+  | .shown t => ["ok".toList, "shown".toList, t]
+  | .raised => ["ok".toList, "raised".toList]
+  | .unknown => ["ok".toList, "unknown".toList]
+
+def showPiece : Markup.Piece → Str
+  | .lit s => "lit:".toList ++ s
+  | .msg => "msg".toList
+  | .msgEscaped => "escape(msg)".toList
+
+def showArg : Markup.Arg → Str
+  | .markup ps => "str(".toList ++ joinSep '+' (ps.map showPiece) ++ [')']
+  | .text ps => "Text(".toList ++ joinSep '+' (ps.map showPiece) ++ [')']
+
 def showState (st : ProjState) (names : List NameKey) : List Str :=
   ["ok".toList,
    commaJoin (st.reg.files.map (·.1)),
@@ -96,6 +110,36 @@ def dispatchC20 : List Str → Option (List Str)
         | some p => some ["ok".toList, (if Rx.matchesAt0 p.2 s then ['1'] else ['0'])]
         | none => some ["bad-request".toList]
       | _ => some ["bad-request".toList]
+    else if cmd == "c20.mkescape".toList then
+      -- rich.markup.escape
+      match args with
+      | [s] => some ["ok".toList, Markup.escape s]
+      | _ => some ["bad-request".toList]
+    else if cmd == "c20.mkrender".toList then
+      -- emoji flag, markup  ->  rich.markup.render(markup).plain | raised | unknown
+      match args with
+      | [e, s] => some (showObs (Markup.render { emoji := boolOf e, tbl := Gen.emojiSample } s))
+      | _ => some ["bad-request".toList]
+    else if cmd == "c20.warn".toList then
+      -- message  ->  what ford.console.warn puts on the terminal
+      match args with
+      | [m] => some (showObs (Markup.warnShown Gen.emojiSample Gen.warnSpec m))
+      | _ => some ["bad-request".toList]
+    else if cmd == "c20.progress".toList then
+      -- path  ->  what the progress bar makes of the current file
+      match args with
+      | [p] => some (showObs (Markup.progressObs Gen.emojiSample Gen.progressSpec p))
+      | _ => some ["bad-request".toList]
+    else if cmd == "c20.rejectionmsg".toList then
+      match args with
+      | [p, e] => some ["ok".toList, Markup.rejectionMsg Gen.rejectionMsg p e]
+      | _ => some ["bad-request".toList]
+    else if cmd == "c20.diagspec".toList then
+      some ["ok".toList, joinSep ',' (Gen.warnSpec.args.map showArg),
+            (if Gen.warnSpec.markup then "markup" else "nomarkup").toList,
+            (if Gen.warnSpec.emoji then "emoji" else "noemoji").toList,
+            (if Gen.progressSpec.markup then "progress:markup" else "progress:plain").toList,
+            (if Gen.progressSpec.escaped then "progress:escaped" else "progress:raw").toList]
     else none
   | [] => none
 
